@@ -147,7 +147,7 @@ def rule_fold(run):
         "operator); binary_fold is exactly the left fold (right fold with right_fold=True)",
         floor=40,
     )
-    mod, res = shape.fold_orders(run.idx, 7)
+    mod, res = shape.fold_orders(run.idx, run.bound(7, 12))
     f = mod.func("binary_fold")
     for name, cfg, leaves, tree in res:
         order_ok = shape.in_order(tree) == leaves
@@ -158,7 +158,7 @@ def rule_fold(run):
                expected="operands in argument order" + (", left fold" if name == "binary_fold" and "right" not in cfg else ""),
                found=repr(tree)[:100], sample=(cfg in ("n=3", "n=5,batch_size=3")))
     # _batch_args partitions in order
-    for n, bs in itertools.product(range(1, 8), (2, 3, 4)):
+    for n, bs in itertools.product(range(1, run.bound(8, 14)), run.bound((2, 3, 4), (2, 3, 4, 5, 6))):
         it = _interp(run.idx)
         got = it.call_function("_batch_args", list(range(n)), bs)
         flat = [x for b in got for x in b]
@@ -195,7 +195,7 @@ def rule_layout(run):
         ok = isinstance(got, BV) and list(got.bits) == list(expect_bits)
         run.ob(ok, fn, file=mod.rel, line=line, detail=detail, expected="<" + " ".join(map(repr, reversed(list(expect_bits)))) + ">", found=repr(got)[:120], sample=(detail.endswith("w=3,n=1") or detail.endswith("w=2,f=2")))
 
-    for w in range(1, 6):
+    for w in range(1, run.bound(6, 10)):
         x = _sym("x", w)
         xb = list(x.bits)
         # concat: first argument in the most significant position
@@ -225,7 +225,7 @@ def rule_layout(run):
             check("lshift_fill", f"w={w},fill={wf}", [x, fl], {}, (list(fl.bits) + xb[: w - wf]) if wf <= w else None)
             check("rshift_fill", f"w={w},fill={wf}", [x, fl], {}, (xb[wf:] + list(fl.bits)) if wf <= w else None)
     # batched: element k are bits [k*n, (k+1)*n)
-    for w, n in itertools.product(range(1, 8), range(1, 4)):
+    for w, n in itertools.product(range(1, run.bound(8, 13)), range(1, run.bound(4, 6))):
         x = _sym("x", w)
         it = _interp(idx)
         try:
@@ -315,7 +315,7 @@ def rule_mask(run):
     run.begin("C18.mask", "apply_mask: every result bit is (old & ~mask) | (new & mask) of the same position", floor=3)
     idx = run.idx
     mod = idx.mod(CU)
-    for w in (1, 2, 3):
+    for w in run.bound((1, 2, 3), (1, 2, 3, 4, 8, 16)):
         it = _interp(idx)
         old, new, mask = _sym("o", w), _sym("n", w), _sym("m", w)
         got = it.call_function("apply_mask", old, new, mask)
@@ -379,7 +379,7 @@ def rule_crc(run):
         c = f"({r.bits[-1]} ^ {d.bits[0]})"
         return BV([Bit(f"ite({c}, ({sh[i]} ^ {p.bits[i]}), {sh[i]})") for i in range(w)], "BitVector")
 
-    for w in (2, 3, 4, 8):  # a 1-bit register has no `lsb(rest=1)` part (rejected by the vector type itself)
+    for w in run.bound((2, 3, 4, 8), (2, 3, 4, 5, 8, 16, 32)):  # a 1-bit register has no `lsb(rest=1)` part (rejected by the vector type itself)
         r, p_ = BV.sym("r", w), BV.sym("p", w)
         ds = [BV([Bit(f"d{k}")], "Bit") for k in range(3)]
         exp1 = spec_step(r, ds[0], p_)
@@ -425,7 +425,7 @@ def rule_choose_first(run):
     )
     mod = run.idx.mod(CU)
     f = mod.func("_first_impl")
-    for n in range(0, 5):
+    for n in range(0, run.bound(5, 9)):
         for bits in itertools.product((False, True), repeat=n):
             pairs = [(b, f"v{i}") for i, b in enumerate(bits)]
             exp = next((v for c, v in pairs if c), "d")
